@@ -683,6 +683,9 @@ class SoftwareSwitchBase (object):
       # Do we disable send-to-controller when performing this?
       # (Currently, there's the possibility that a table miss from this
       # will result in a send-to-controller which may send back to table...)
+      # (The table works on the frame as it is now, not on the object the rest
+      # of this action list goes on rewriting.)
+      if hasattr(packet, 'pack'): packet = ethernet(packet.pack())
       self.rx_packet(packet, in_port)
     else:
       self.log.warn("Unsupported virtual output port: %d", out_port)
